@@ -300,6 +300,7 @@ func (k *Kernel) apply(t *Task) {
 		k.await(t, r.cond)
 	case opRecord:
 		k.Log = append(k.Log, Event{k.step, k.Elapsed(), t.id, cloneString(r.s1), cloneString(r.s2)})
+		k.progressed()
 		k.complete(t, result{})
 	case opCtxNew:
 		c := r.dctx
@@ -428,6 +429,7 @@ func (k *Kernel) listen(t *Task, network, addr string) {
 	k.ns[key] = l
 	k.Listeners = append(k.Listeners, l)
 	k.trace("listen L%d %s %s", l.ID, network, addr)
+	k.progressed()
 	k.complete(t, result{ln: l})
 }
 
@@ -445,6 +447,7 @@ func (k *Kernel) dial(t *Task, network, addr string) {
 	l.Dialed++
 	l.backlog = append(l.backlog, c.Server)
 	k.trace("dial c%d -> L%d", c.ID, l.ID)
+	k.progressed()
 	k.complete(t, result{ep: c.Client})
 	k.tryAccept(l)
 }
@@ -479,6 +482,7 @@ func (k *Kernel) handOver(t *Task, l *Listener) {
 	ep.conn.AcceptAt = k.Elapsed()
 	l.Accepted = append(l.Accepted, ep.conn)
 	k.trace("accept L%d -> c%d", l.ID, ep.conn.ID)
+	k.progressed()
 	k.complete(t, result{ep: ep})
 }
 
@@ -560,6 +564,7 @@ func (k *Kernel) lnClose(t *Task, l *Listener) {
 		l.AcceptSinceAtClose = l.AcceptSince
 	}
 	k.trace("close L%d", l.ID)
+	k.progressed()
 	if k.ns[nsKey(l.Network, l.Address)] == l {
 		delete(k.ns, nsKey(l.Network, l.Address))
 	}
@@ -658,6 +663,7 @@ func (k *Kernel) tryRead(t *Task, e *Endpoint, max int) bool {
 			k.Count("short_reads")
 		}
 		b := k.takeBytes(p, n)
+		k.progressed()
 		e.ReadLog = appendNorace(e.ReadLog, b)
 		k.complete(t, result{n: n, b: b})
 		k.pumpWriter(p)
@@ -796,6 +802,9 @@ func (k *Kernel) pushBytes(e *Endpoint, p *pipe, b []byte) int {
 	}
 	e.Tap = appendNorace(e.Tap, b[:n])
 	p.Written += n
+	if n > 0 {
+		k.progressed()
+	}
 	off := 0
 	nseg := 0
 	for off < n {
@@ -975,12 +984,14 @@ func (k *Kernel) closeEp(t *Task, e *Endpoint, abort bool) {
 	}
 	if abort {
 		k.trace("abort %s", e.name())
+		k.progressed()
 		k.Fault("abort")
 		k.resetEp(e)
 		k.complete(t, result{})
 		return
 	}
 	k.trace("close %s", e.name())
+	k.progressed()
 	e.Closed = true
 	e.CloseSeq = k.step
 	e.CloseAt = k.Elapsed()
@@ -1399,6 +1410,14 @@ type DeadlineCtx struct {
 	done     chan struct{}
 	// state: 0 live, 1 cancelled, 2 deadline exceeded; unobserved accesses only
 	state int32
+	// after: functions registered through AfterFunc (standard contexts derived
+	// from this one register their cancellation here)
+	after []*afterEntry
+}
+
+type afterEntry struct {
+	f       func()
+	stopped bool
 }
 
 // NewCtx creates a context. d == 0: no deadline (cancel only).
@@ -1409,6 +1428,14 @@ func NewCtx(d time.Duration) *DeadlineCtx {
 		c.hasDL = true
 	}
 	mustSelf().syscall(request{op: opCtxNew, dctx: c, d: d})
+	return c
+}
+
+// NewCtx creates a cancel-only context from scenario set-up code (kernel side,
+// before any task runs).
+func (k *Kernel) NewCtx() *DeadlineCtx {
+	c := &DeadlineCtx{done: make(chan struct{})}
+	k.ctxs = append(k.ctxs, c)
 	return c
 }
 
@@ -1431,6 +1458,38 @@ func (c *DeadlineCtx) fire(err error) bool {
 	raceOff()
 	close(c.done)
 	raceOn()
+	// derived standard contexts end now, in the firing task (or the kernel): no
+	// unmanaged goroutine propagates the cancellation
+	for _, e := range c.after {
+		if !e.stopped {
+			e.stopped = true
+			e.f()
+		}
+	}
+	return true
+}
+
+// AfterFunc implements the optional interface the context package looks for
+// in a parent it does not know (context.WithCancel(c) would otherwise start a
+// goroutine of its own that waits for c.Done()).
+//
+//go:norace
+func (c *DeadlineCtx) AfterFunc(f func()) (stop func() bool) {
+	if c.state != 0 {
+		f()
+		return func() bool { return false }
+	}
+	e := &afterEntry{f: f}
+	c.after = append(c.after, e)
+	return e.stop
+}
+
+//go:norace
+func (e *afterEntry) stop() bool {
+	if e.stopped {
+		return false
+	}
+	e.stopped = true
 	return true
 }
 
@@ -1445,6 +1504,17 @@ func (c *DeadlineCtx) Cancel() {
 	mustSelf().syscall(request{op: opCtxCancel})
 	c.fire(context.Canceled)
 }
+
+// Expire ends the context as if its deadline passed at this very instant (a
+// scheduling point first): Err is DeadlineExceeded, Deadline reports now.
+func (c *DeadlineCtx) Expire() {
+	mustSelf().syscall(request{op: opCtxCancel})
+	c.setDL(time.Now())
+	c.fire(context.DeadlineExceeded)
+}
+
+//go:norace
+func (c *DeadlineCtx) setDL(at time.Time) { c.deadline, c.hasDL = at, true }
 
 func (c *DeadlineCtx) Deadline() (time.Time, bool) { return c.dl() }
 
